@@ -100,3 +100,36 @@ func (e *Env) RefValidate(s string, lang int) (ref.Status, []string) {
 	_, st, _ := e.Model.Dec(toks, lang)
 	return st, toks
 }
+
+// generatorAtFault reports whether a crash-type outcome of a generate-then-use
+// call (encchk, newchk, genhold) belongs to the generating step: the panic came
+// before anything was returned, or the generating call executed alone fails too.
+// Checks whose property speaks about "the returned mnemonic" use it to leave
+// such calls to the properties that decide whether the generator may fail.
+func (e *Env) generatorAtFault(drv string, op *plan.Op, r *plan.Res) bool {
+	if r.Panic != "" && r.Out == "" && r.Died == "" && r.Hang == "" {
+		return true
+	}
+	g := *op
+	switch op.Fn {
+	case "enc":
+		return true
+	case "encchk", "genhold":
+		g.Fn, g.P, g.PSegs = "enc", "", nil
+	case "newchk":
+		g.Fn = "new"
+	default:
+		return false
+	}
+	return failure(e.Solo(drv, g)) != ""
+}
+
+// ownEncoding is what the monitored tree's NewMnemonicByEntropy returns for the
+// entropy when called alone in a fresh process ("" when it fails).
+func (e *Env) ownEncoding(drv string, ent []byte, lang int) string {
+	s := e.Solo(drv, plan.Op{Fn: "enc", L: int64(lang), E: hx(ent)})
+	if failure(s) != "" || s.Err != nil {
+		return ""
+	}
+	return string(unhex(s.Out))
+}
